@@ -65,7 +65,7 @@ pub const NOT_EXTERNAL: &[&str] = &[
     "get_directed_triangles_and_degrees", "get_directed_weighted_triangles_and_degrees", "get_triangles_and_degrees", "get_weighted_triangles_and_degrees",
     "get_adjacent_nodes_without", "get_normalized_edge_weight", "get_neighbors_of_nodes", "push_fringe_node",
     "verif_snapshot", "set_chooser", "set_observer", "set_parallel_override", "parallel_override", "order_by_key", "observe", "fast_gnp_random_graph_with_rng",
-    "fmt", "eq", "cmp", "partial_cmp", "hash", "without", "to_hashset", "chunk_by_count", "next",
+    "fmt", "eq", "cmp", "partial_cmp", "hash", "without", "to_hashset", "chunk_by_count", "next", "ordered_sum",
 ];
 
 pub fn api_crosscheck() -> Result<(usize, usize), String> {
